@@ -99,6 +99,7 @@ def run(tier, t0):
     if rc != 0:
         raise vlib.ToolError("vh auth failed: " + err)
     nh = 0
+    suspects = []       # (key, detail, case): discrepancies under the paused clock, to be confirmed in real time
     for r in vlib.read_ndjson(rpath):
         if r.get("summary"):
             continue
@@ -113,12 +114,42 @@ def run(tier, t0):
             if ob["verdict"] != st["verdict"] or ob["src"] != st["src"]:
                 kind = "stale-or-foreign-verdict" if ob["src"] == "cache" and st["src"] == "cmd" else \
                        "verdict" if ob["verdict"] != st["verdict"] else "not-cached"
-                v.report("auth/cache/%s" % kind, {"step": k, "expected": {"verdict": st["verdict"], "src": st["src"]}, "observed": ob,
-                                                  "history": [(x["op"], x["pair"]) for x in h["h"]], "truth0": h["truth0"]},
-                         {"driver": "vh auth", "case": {"id": 0, "truth0": h["truth0"], "h": h["h"]}})
+                suspects.append(("auth/cache/%s" % kind, {"step": k, "expected": {"verdict": st["verdict"], "src": st["src"]}, "observed": ob,
+                                                            "history": [(x["op"], x["pair"]) for x in h["h"]], "truth0": h["truth0"]},
+                                 {"id": len(suspects), "truth0": h["truth0"], "h": h["h"], "real": True}))
                 break
     if nh != len(hists):
         raise vlib.ToolError("auth driver answered %d of %d" % (nh, len(hists)))
+    # the exhaustive run uses tokio's paused clock; an implementation is free to measure expiry with another clock, so a
+    # discrepancy only counts when the same history shows it in real time (1.1 s per tick; at most 32 histories of different shape, in parallel)
+    unconfirmed = 0
+    if suspects:
+        # as many different history shapes as possible
+        shapes = {}
+        for sp in suspects:
+            shapes.setdefault(json.dumps(sp[1]["history"]), sp)
+        pick = list(shapes.values())[:32]
+        for i, (_, _, case) in enumerate(pick):
+            case["id"] = i
+        cp2 = os.path.join(wd, "hist_real.ndjson")
+        vlib.write_ndjson(cp2, [c for _, _, c in pick])
+        rp2 = os.path.join(wd, "hist_real_res.ndjson")
+        rc, _, err = vlib.vh(["auth", cp2, scratch], stdout_path=rp2, timeout=600)
+        if rc != 0:
+            raise vlib.ToolError("vh auth (real time) failed: " + err)
+        for r in vlib.read_ndjson(rp2):
+            if r.get("summary"):
+                continue
+            key, detail, case = pick[r["id"]]
+            again = False
+            for st, ob in zip(case["h"], r.get("obs", [])):
+                if st["op"] == "attempt" and (ob.get("verdict") != st["verdict"] or ob.get("src") != st["src"]):
+                    again = True
+            if again or r.get("panic"):
+                detail["confirmed_in_real_time"] = True
+                v.report(key, detail, {"driver": "vh auth", "case": case})
+            else:
+                unconfirmed += 1
     # ---- tables ----
     tg = vlib.tlc_must_pass(vlib.run_tlc("MCAuth", "MCAuthTab.cfg", workers=4, timeout=600), "MCAuthTab")
     seen = set()
@@ -237,7 +268,7 @@ def run(tier, t0):
                 "tokio's paused clock (verdict and whether the command ran); (3) ListenerAccepts(policy, certificate) on real http/socks/quic "
                 "listeners and ConnectorEstablishes(setting, certificate) on real http/socks/quic connectors against TLS upstreams with fixture "
                 "certificates (valid, foreign CA, wrong name)",
-        "positive_controls": ctl, "legitimate_but_refused": [list(map(str, r)) for r in refused[:20]], "cache_histories": nh, "negotiation_runs": nneg, "listener_tls_rows": nl + nq, "connector_tls_rows": nc, "exhaustive": True, "checker_cmd": hg.cmd,
+        "paused_clock_discrepancies_not_reproduced_in_real_time": unconfirmed, "positive_controls": ctl, "legitimate_but_refused": [list(map(str, r)) for r in refused[:20]], "cache_histories": nh, "negotiation_runs": nneg, "listener_tls_rows": nl + nq, "connector_tls_rows": nc, "exhaustive": True, "checker_cmd": hg.cmd,
     }, ["rustls / quinn are trusted; only the proxy's policy wiring is checked", "fixture certificates made with openssl (fixtures/mkcerts.sh)"])
     return v.finish(ev, t0)
 
